@@ -106,6 +106,14 @@ def main():
             if pid == 'C11':
                 res['coverage']['allocation_monitor'] = extra.get('alloc', {})
             res['assumptions'] = list(res.get('assumptions', [])) + list(extra.get('assumptions', []))
+            # what "oracle" means for these three: whole-transcript comparisons (C10, C15) / every operation
+            # monitored for assertions, crashes and allocations (C11)
+            cov = res['coverage']
+            if pid == 'C11':
+                cov['oracle_checks'] = cov.get('evaluations', 0)
+            else:
+                cov['oracle_checks'] = int(extra.get('coverage', {}).get('evaluations', 0) or 0)
+            res['summary'] = re.sub(r'oracle_checks=\d+', 'oracle_checks=%d' % cov['oracle_checks'], res.get('summary', ''))
 
     # thorough: independent re-check of the compiled property module
     checker_cmd = 'cd lean && lake build && lake env lean Audit.lean   # `#print axioms`-equivalent on every theorem of %s' % cfg['module']
